@@ -3,4 +3,5 @@ pub mod c03;
 pub mod c06;
 pub mod c07;
 pub mod c08;
+pub mod c11;
 pub mod common;
